@@ -479,4 +479,35 @@ def rule_default(ctx):
     ctx.floor("C15.DEFAULT", 4, "stream constructions")
 
 
-RULES = [rule_share, rule_dir, rule_order, rule_off, rule_dim, rule_default]
+def rule_support(ctx):
+    p = ctx.p
+    ctx.rule("C15.SUPPORT", "what the accounting relies on in its supporting code: a stream keeps THE throttle map it was given (USER installs the per-user throttles into the control "
+                            "stream's map in place and the data streams are built on the same map), and _now() is the event loop's clock (the one asyncio.sleep() waits on)")
+    ti = p.method("ThrottleStreamIO", "__init__")
+    stores = [s_ for s_, t in attr_stores(ti, "throttles", nested=False) if isinstance(s_, ast.Assign)]
+    if not stores:
+        raise AnalysisError("anchor=ThrottleStreamIO.throttles store not found")
+    params = {a.arg for a in ti.args.args + ti.args.kwonlyargs}
+    for st in stores:
+        ok = isinstance(st.value, ast.Name) and st.value.id in params
+        ctx.ob("C15.SUPPORT", st, "self.throttles is the mapping object passed in", ok,
+               f"ThrottleStreamIO keeps `{src(st.value)[:40]}`, a copy of the map it was given: the per-user throttles that USER adds to the control stream's map never reach a data "
+               "stream built before the (re-)login - its transfers run without the user's limits", construct="support:throttles copied")
+    now = p.module_funcs.get(("common.py", "_now"))
+    if now is None:
+        raise AnalysisError("anchor=common._now not found")
+    rets = [r.value for r in walk_no_nested(now) if isinstance(r, ast.Return) and r.value is not None]
+    ok = len(rets) == 1 and isinstance(rets[0], ast.Call) and isinstance(rets[0].func, ast.Attribute) and rets[0].func.attr == "time" and isinstance(rets[0].func.value, ast.Call) \
+        and (dotted(rets[0].func.value.func) or "").split(".")[-1] in ("get_running_loop", "get_event_loop")
+    ctx.ob("C15.SUPPORT", now, "_now() is <running loop>.time()", ok,
+           f"_now() returns `{src(rets[0])[:40] if rets else None}`, not the event loop's own clock: the throttle measures on one clock and sleeps (asyncio.sleep) on another - "
+           "on a loop whose time() is not the wall clock the delays no longer match the limit", construct="support:clock")
+
+
+def rule_borrowed_r4(ctx):
+    from .c01 import rule_thru
+    ctx.rule("C15.THRU", "every byte is waited for and counted once: the stream's write/read proxies forward to the inner stream and do not call back into the throttled method (shared with C01.THRU)")
+    ctx.borrow(rule_thru, {"C01.THRU": "C15.THRU"})
+
+
+RULES = [rule_share, rule_dir, rule_order, rule_off, rule_dim, rule_default, rule_support, rule_borrowed_r4]
